@@ -61,6 +61,7 @@ type Clause struct {
 type LoopContract struct {
 	NoAutoFrame bool
 	Invs      []Clause
+	Iters     []Clause // checked at the end of every iteration over the calls made during that iteration
 	Decreases Expr
 	DecSrc    string
 }
@@ -674,6 +675,12 @@ func readContractFile(path, pkg string) (*ContractFile, error) {
 						return nil, fail(err)
 					}
 					lc.Invs = append(lc.Invs, cl)
+				case "iteration":
+					cl, err := parseClause(fs[2])
+					if err != nil {
+						return nil, fail(err)
+					}
+					lc.Iters = append(lc.Iters, cl)
 				case "decreases":
 					e, err := parseExpr(fs[2])
 					if err != nil {
